@@ -528,27 +528,69 @@ def snippetguard(repo):
                     and ((isinstance(n.value.func, ast.Attribute) and n.value.func.attr in ("splitlines", "split", "split_lines"))
                          or (isinstance(n.value.func, ast.Name) and "split" in n.value.func.id)):
                 lines_vars.add(n.targets[0].id)
+        # single-assignment locals are substituted, so `i = loc.start.line - 1; lines[i]` is seen as what it is
+        local_defs = {}
         for n in walk_no_nested_funcs(f.node):
-            if isinstance(n, ast.Subscript) and isinstance(n.value, ast.Name) and n.value.id in lines_vars \
-                    and ".line" in ast.unparse(n.slice):
-                res.instances += 1
-                guarded = False
-                cur = n
-                while cur is not f.node:
-                    par = m.parent(cur)
-                    if par is None:
-                        break
-                    if isinstance(par, (ast.If, ast.IfExp)):
-                        t = ast.unparse(par.test)
-                        if f"len({n.value.id})" in t and ".line" in t:
-                            guarded = True
-                    cur = par
-                if not guarded:
-                    res.add(f"{m.rel}|{f.qualname}|{n.value.id}", f"{f.qualname} indexes `{n.value.id}` with `{ast.unparse(n.slice)}` without comparing "
-                            f"the line number with len({n.value.id}): a syntax error at end of input is located on the line after the last "
-                            "one, and rendering it with the source raises IndexError", m.rel, n.lineno, f.qualname)
-                else:
-                    res.samples.append(f"{f.qualname}: {n.value.id}[...] guarded by a length test")
+            if isinstance(n, ast.Assign) and len(n.targets) == 1 and isinstance(n.targets[0], ast.Name):
+                local_defs.setdefault(n.targets[0].id, []).append(n.value)
+
+        def subst(e):
+            if isinstance(e, ast.Name) and len(local_defs.get(e.id, ())) == 1 and e.id not in lines_vars:
+                return subst(local_defs[e.id][0])
+            return e
+
+        def lin(e):
+            """{LINE: k, 1: c} for expressions over one `<...>.line` value and integer constants."""
+            e = subst(e)
+            if isinstance(e, ast.Constant) and isinstance(e.value, int):
+                return {1: e.value}
+            if isinstance(e, ast.Attribute) and e.attr == "line":
+                return {"LINE": 1}
+            if isinstance(e, ast.BinOp) and isinstance(e.op, (ast.Add, ast.Sub)):
+                a, b = lin(e.left), lin(e.right)
+                if a is None or b is None:
+                    return None
+                k = 1 if isinstance(e.op, ast.Add) else -1
+                out = dict(a)
+                for kk, v in b.items():
+                    out[kk] = out.get(kk, 0) + k * v
+                return out
+            return None
+
+        for n in walk_no_nested_funcs(f.node):
+            if not (isinstance(n, ast.Subscript) and isinstance(n.value, ast.Name) and n.value.id in lines_vars):
+                continue
+            idx = lin(n.slice)
+            if idx is None or idx.get("LINE") != 1:
+                continue
+            res.instances += 1
+            c = idx.get(1, 0)
+            guarded, seen_guard = False, None
+            cur = n
+            while cur is not f.node:
+                par = m.parent(cur)
+                if par is None:
+                    break
+                if isinstance(par, (ast.If, ast.IfExp)) and (cur in getattr(par, "body", []) or cur is getattr(par, "body", None)):
+                    for cmp_ in [x for x in ast.walk(par.test) if isinstance(x, ast.Compare) and len(x.ops) == 1]:
+                        l_, r_ = cmp_.left, cmp_.comparators[0]
+                        if ast.unparse(r_) == f"len({n.value.id})" and isinstance(cmp_.ops[0], (ast.Lt, ast.LtE)):
+                            a = lin(l_)
+                            if a is not None and a.get("LINE") == 1:
+                                seen_guard = ast.unparse(par.test)
+                                d = a.get(1, 0)
+                                # index = LINE + c must be < len, given LINE + d (< | <=) len
+                                if c <= d - (1 if isinstance(cmp_.ops[0], ast.LtE) else 0):
+                                    guarded = True
+                cur = par
+            if not guarded:
+                how = f"under `{seen_guard}`, which still admits an index equal to the length" if seen_guard else \
+                    f"without comparing the line number with len({n.value.id})"
+                res.add(f"{m.rel}|{f.qualname}|{n.value.id}", f"{f.qualname} indexes `{n.value.id}` with `{ast.unparse(subst(n.slice))}` {how}: "
+                        "a syntax error at end of input is located on the line after the last "
+                        "one, and rendering it with the source raises IndexError", m.rel, n.lineno, f.qualname)
+            else:
+                res.samples.append(f"{f.qualname}: {n.value.id}[LINE{c:+d}] guarded by `{seen_guard}`")
     if res.instances < 1:
         raise AnalysisError("error.py: no indexing of source lines by a location found")
     res.analysed = [m.rel]
